@@ -40,7 +40,7 @@ Proof. intros f k. induction k as [|k IH]; intros s; simpl; [reflexivity | rewri
 Lemma sumk_durations : forall instrs, sumk (durI instrs) (seq 0 (length instrs)) = sum_durations instrs.
 Proof.
   induction instrs as [|a l IH]; [reflexivity|].
-  simpl length. simpl seq. simpl sumk. rewrite sumk_shift. unfold sum_durations. simpl. f_equal.
+  simpl length. simpl seq. simpl sumk. rewrite sumk_shift. unfold sum_durations in *. simpl. f_equal.
   rewrite <- IH. apply sumk_ext. intros i. reflexivity.
 Qed.
 
@@ -140,3 +140,47 @@ Section Inst.
     rewrite H in H0. inversion H0; subst. apply H6. reflexivity.
   Qed.
 End Inst.
+
+(* ---------- the shipped code (fixed := false) violates no_overlap ---------- *)
+Open Scope string_scope.
+Definition c11_witness : list instr :=
+  [ mkInstr "RZ" [0] [] [(1#2)%Q] 10%Q; mkInstr "RZ" [1] [] [(1#2)%Q] 1%Q; mkInstr "CNOT" [1] [0] [] 2%Q ].
+
+Lemma c11_witness_valid : valid_input c11_witness.
+Proof.
+  unfold valid_input, c11_witness. split; [discriminate|]. split.
+  - repeat constructor.
+  - eexists. exists 0. split; [left; reflexivity|]. unfold uses. simpl. left. reflexivity.
+Qed.
+
+Lemma c11_witness_shipped :
+  sched_pulse commutation_rules_orig true c11_witness false false so_asc so_asc false 0 0 = Some [0; 0; 1]%Q.
+Proof. vm_compute. reflexivity. Qed.
+
+Lemma c11_witness_fixed :
+  sched_pulse commutation_rules true c11_witness false false so_asc so_asc true 0 0 = Some [0; 0; 10]%Q.
+Proof. vm_compute. reflexivity. Qed.
+
+Lemma no_overlap_refuted :
+  exists instrs st i j,
+    valid_input instrs /\
+    sched_pulse commutation_rules_orig true instrs false false so_asc so_asc false 0 0 = Some st /\
+    i < length instrs /\ j < length instrs /\ i <> j /\
+    (exists q, uses (ith instrs i) q /\ uses (ith instrs j) q) /\
+    ~ ((stt st i + idur (ith instrs i) <= stt st j)%Q \/ (stt st j + idur (ith instrs j) <= stt st i)%Q).
+Proof.
+  exists c11_witness, [0; 0; 1]%Q, 0, 2.
+  split; [exact c11_witness_valid|]. split; [exact c11_witness_shipped|].
+  split; [simpl; lia|]. split; [simpl; lia|]. split; [lia|]. split.
+  - exists 0. unfold uses, ith, c11_witness. simpl. tauto.
+  - unfold stt, ith, c11_witness. simpl. unfold Qle. simpl. lia.
+Qed.
+
+Lemma c11_witness_dependency :
+  1 < 2 /\ 2 < length c11_witness /\ (exists q, uses (ith c11_witness 1) q /\ uses (ith c11_witness 2) q) /\
+  commN commutation_rules true c11_witness 2 1 = false.
+Proof.
+  split; [lia|]. split; [simpl; lia|]. split.
+  - exists 1. unfold uses, ith, c11_witness. simpl. tauto.
+  - vm_compute. reflexivity.
+Qed.
